@@ -108,9 +108,9 @@ end XrsVerif.CircleK
 namespace XrsVerif.CircleK
 open XrsVerif XrsVerif.DistStr
 
-theorem circleKernel_fin {F : Type} [Fl F] (cx cy r : ℚ) (hx : cx ≠ 0) (hy : cy ≠ 0) :
-    (circleKernel cx cy (.val (.fin r)) : Except String (KGrid F)) =
-      ellipseKernel (pyInt (r / cx)) (pyInt (r / cy)) := by
+theorem circleKernel_fin {F : Type} [Fl F] (rnd : ℚ → ℚ) (cx cy r : ℚ) (hx : cx ≠ 0) (hy : cy ≠ 0) :
+    (circleKernel rnd cx cy (.val (.fin r)) : Except String (KGrid F)) =
+      ellipseKernel (pyInt (rnd (r / cx))) (pyInt (rnd (r / cy))) := by
   simp [circleKernel, halfWidth, hx, hy, Gen.circle_half_w, Gen.circle_half_h]
 
 /-- A.9: the centred inner ellipse is contained in the outer one -/
